@@ -322,17 +322,31 @@ func requiredObjectOutsideView(sp *spec.Spec, ut *spec.UserType, view string, de
 // (trigger class of a listed finding: nested views of recursive result types are projected with the wrong view).
 func recursiveResultType(sp *spec.Spec, ut *spec.UserType) bool {
 	seen := map[string]bool{}
+	// refs collects the user types an attribute type refers to through arrays, maps and inline objects
+	var refs func(t *spec.Type, depth int, out *[]string)
+	refs = func(t *spec.Type, depth int, out *[]string) {
+		if t == nil || depth > 8 {
+			return
+		}
+		switch t.Kind {
+		case spec.Ref:
+			*out = append(*out, t.Ref)
+		case spec.Array, spec.Map:
+			if t.Elem != nil {
+				refs(t.Elem.Type, depth+1, out)
+			}
+		case spec.Object:
+			for _, a := range t.Attrs {
+				refs(a.Type, depth+1, out)
+			}
+		}
+	}
 	var walk func(t *spec.UserType) bool
 	walk = func(t *spec.UserType) bool {
-		for _, a := range t.Def.Attrs {
-			at := a.Type
-			if at.Kind == spec.Array || at.Kind == spec.Map {
-				at = at.Elem.Type
-			}
-			if at.Kind != spec.Ref {
-				continue
-			}
-			n := sp.Type(at.Ref)
+		var rs []string
+		refs(t.Def, 0, &rs)
+		for _, r := range rs {
+			n := sp.Type(r)
 			if n == nil || n.Kind != "result" {
 				continue
 			}
